@@ -17,13 +17,13 @@
    "every step satisfies a pointwise (nth/length) specification" instead of an equation between two folds,
    because the model vector already IS a list (absV would be the identity and the equation a tautology);
    (2) norm_inf returns res (it indexes v[0]: Panic Index on the empty vector), so its laws carry `= Ok m`.
-     over IEEE binary64 (Flocq): dot_exact_float, sum_slice_exact_float -- on integer-valued data below 2^53 the float
+     over IEEE binary64 (Flocq): dot_exact_float, sum_slice_exact_float, elementwise_exact_float, norm_1_exact_float -- on integer-valued data below 2^53 the float
      instance returns exactly the integer value of the definition ("exact on exactly-representable data").
    Not proved (DESIGN section 10): every statement "up to rounding" over f64, Minkowski for general p,
    powspace / norm_p (libm pow) -- tied by tolerance and searched on every run. *)
 From Coq Require Import List Arith Reals Permutation Sorted QArith Qcanon ZArith.
 From OV Require Import Base.Panic Base.Arith Model.Complex Model.Vector Model.VecOps
-                       Proofs.Vector Proofs.VectorR Proofs.VectorQc Proofs.VectorCx Proofs.VectorRp Proofs.ParDotFloat Proofs.VectorFloat
+                       Proofs.Vector Proofs.VectorR Proofs.VectorQc Proofs.VectorCx Proofs.VectorRp Proofs.ParDotFloat Proofs.VectorFloat Proofs.VectorFloat2
                        Inst.QcInst Inst.FloatInst.
 Import ListNotations.
 Local Open Scope nat_scope.
@@ -237,6 +237,36 @@ Check sum_slice_exact_float : forall (v : list AF) (zs : list Z) s e (x : AF),
   Forall2 ExactW v zs -> (zasuml zs < 2 ^ 53)%Z -> sum_slice (A := AF) v s e = Ok x ->
   ExactW x (zsuml (slice zs s e)).
 Print Assumptions sum_slice_exact_float.
+Print Assumptions audit_separator.
+
+Theorem elementwise_exact_float : forall (u w : list AF) (zs ws : list Z) (c : AF) (k : Z),
+  Forall2 ExactW u zs -> Forall2 ExactW w ws -> length zs = length ws -> ExactW c k ->
+  (Forall (fun p => (Z.abs (fst p + snd p) < 2 ^ 53)%Z) (combine zs ws) ->
+     exists s, vadd (A := AF) u w = Ok s /\ Forall2 ExactW s (map (fun p => (fst p + snd p)%Z) (combine zs ws))) /\
+  (Forall (fun p => (Z.abs (fst p - snd p) < 2 ^ 53)%Z) (combine zs ws) ->
+     exists d, vsub (A := AF) u w = Ok d /\ Forall2 ExactW d (map (fun p => (fst p - snd p)%Z) (combine zs ws))) /\
+  (Forall (fun z => (Z.abs (z * k) < 2 ^ 53)%Z) zs -> Forall2 ExactW (vscale (A := AF) u c) (map (fun z => (z * k)%Z) zs)) /\
+  Forall2 ExactW (vneg (A := AF) u) (map Z.opp zs) /\
+  Forall2 ExactW (vabs (A := AF) u) (map Z.abs zs).
+Proof. intros u w zs ws c k Hu Hw Hl Hc. exact (elementwise_exact_float_lemma u w zs ws c k Hu Hw Hl Hc). Qed.
+Check elementwise_exact_float : forall (u w : list AF) (zs ws : list Z) (c : AF) (k : Z),
+  Forall2 ExactW u zs -> Forall2 ExactW w ws -> length zs = length ws -> ExactW c k ->
+  (Forall (fun p => (Z.abs (fst p + snd p) < 2 ^ 53)%Z) (combine zs ws) ->
+     exists s, vadd (A := AF) u w = Ok s /\ Forall2 ExactW s (map (fun p => (fst p + snd p)%Z) (combine zs ws))) /\
+  (Forall (fun p => (Z.abs (fst p - snd p) < 2 ^ 53)%Z) (combine zs ws) ->
+     exists d, vsub (A := AF) u w = Ok d /\ Forall2 ExactW d (map (fun p => (fst p - snd p)%Z) (combine zs ws))) /\
+  (Forall (fun z => (Z.abs (z * k) < 2 ^ 53)%Z) zs -> Forall2 ExactW (vscale (A := AF) u c) (map (fun z => (z * k)%Z) zs)) /\
+  Forall2 ExactW (vneg (A := AF) u) (map Z.opp zs) /\
+  Forall2 ExactW (vabs (A := AF) u) (map Z.abs zs).
+Print Assumptions elementwise_exact_float.
+Print Assumptions audit_separator.
+
+Theorem norm_1_exact_float : forall (v : list AF) (zs : list Z),
+  Forall2 ExactW v zs -> (zasuml zs < 2 ^ 53)%Z -> ExactW (norm_1 (A := AF) v) (zasuml zs).
+Proof. intros v zs Hv Hb. exact (norm_1_exact_float_lemma v zs Hv Hb). Qed.
+Check norm_1_exact_float : forall (v : list AF) (zs : list Z),
+  Forall2 ExactW v zs -> (zasuml zs < 2 ^ 53)%Z -> ExactW (norm_1 (A := AF) v) (zasuml zs).
+Print Assumptions norm_1_exact_float.
 Print Assumptions audit_separator.
 
 Example exact_float_nonvacuous :
